@@ -628,6 +628,10 @@ func (g *Gen) runPass() {
 			}
 			g.assume(t.S)
 			reqs = append(reqs, t.S)
+			if len(c.Props) == 1 && c.Props[0] == "trusted" {
+				// "requires@trusted": assumed here, checked at no call site -- an explicit trusted link
+				g.assumed["precondition of "+funcDisplayName(g.fn)+" that no caller is checked against (trusted link): "+c.Text] = true
+			}
 		}
 		g.newCover("vacuity", "requires", "the preconditions (with type invariants and global invariants) are satisfiable", g.ct.Where, "true")
 	}
